@@ -95,27 +95,16 @@ impl Line {
     /// and the position is the same again; the line a b a' b' a leaves the opponent to move with exactly
     /// one legal move, which is also its move of four plies ago (the move the repetition filter removes).
     fn forced_cycle(&mut self) -> bool {
-        let p = self.pos();
-        for a in p.legal() {
-            let q1 = p.make(a);
-            let l1 = q1.legal();
-            if l1.len() != 1 {
-                continue;
-            }
-            let q2 = q1.make(l1[0]);
-            for a2 in q2.legal() {
-                let q3 = q2.make(a2);
-                let l3 = q3.legal();
-                if l3.len() != 1 {
-                    continue;
-                }
-                if q3.make(l3[0]) == p && self.moves.len() < 370 {
-                    self.moves.extend([a, l1[0], a2, l3[0], a]);
-                    return true;
-                }
-            }
+        if self.moves.len() >= 370 {
+            return false;
         }
-        false
+        match forced_cycle(&self.pos()) {
+            Some(c) => {
+                self.moves.extend(c);
+                true
+            }
+            None => false,
+        }
     }
 
     /// a-b-a-b: both sides move a piece out and back twice, if such moves exist
